@@ -13,6 +13,7 @@ from symx.run import run_check
 
 PID = 'C02'
 SHIMS = CORE_SHIM_MODULES + [
+    'cirq.sim.clifford.stabilizer_state_ch_form',
     'cirq.protocols.act_on_protocol',
     'cirq.protocols.has_unitary_protocol',
     'cirq.protocols.decompose_protocol',
@@ -65,7 +66,10 @@ def worker_setup():
             return np.clip(a, a_min, a_max, **k)
 
     importlib.import_module('cirq.sim.simulation_utils').__dict__['np'] = ClipNp()
-    return ['cirq.sim.simulation_utils.np.clip(probs, 0, None) on symbolic probabilities: identity + assumption probs >= 0']
+    from checks import C13 as _C13
+
+    # the CH-form measurement obligations shared with C13 need its Boolean-array stub
+    return ['cirq.sim.simulation_utils.np.clip(probs, 0, None) on symbolic probabilities: identity + assumption probs >= 0'] + list(_C13.worker_setup() or [])
 
 
 def make_prng(cx):
@@ -425,7 +429,7 @@ def obligations(tier):
     # the tableau measurement law (Clifford simulators) is decided by C13's obligation; it is part of this property too
     from checks import C13 as _C13
 
-    obs += [o for o in _C13.obligations(tier) if o.name.startswith('tableau.measure')]
+    obs += [o for o in _C13.obligations(tier) if o.name.startswith('tableau.measure') or o.name.startswith('chform.measure.')]
 
     # ---- D: Simulator.run / DensityMatrixSimulator.run: joint distribution of all records --------------------
     def programs():
@@ -554,6 +558,6 @@ def main(tier, seed=0, replay=None, only=None, procs=None):
         'pauli_measurement': '9 signed observables on <=2 qubits, arbitrary symbolic state',
         'pauli_measurement.dm': 'same, density-matrix simulation state (rank-1 symbolic rho)',
         'clifford': 'CliffordTableau._measure from an arbitrary valid 2-qubit tableau (obligation shared with C13)',
-        'outside': ['programs that measure, apply H + CNOT and measure two qubits again (mid_then_gate: the NRA equality of the probability products does not finish; left out, not claimed)', 'statistics of numpy generator itself', 'CH-form measurement', 'qudit measurements', 'complex64', 'more than 2 repetitions', 'sample_density_matrix'],
+        'outside': ['programs that measure, apply H + CNOT and measure two qubits again (mid_then_gate: the NRA equality of the probability products does not finish; left out, not claimed)', 'statistics of numpy generator itself', 'CH-form measurement beyond 2 qubits (chform.measure.* obligations shared with C13)', 'qudit measurements', 'complex64', 'more than 2 repetitions', 'sample_density_matrix'],
     }
     return run_check(PID, tier, 'checks.C02', SHIMS, LEVEL, BASE_ASSUMPTIONS, bounds, seed=seed, replay=replay, only=only, procs=procs)
